@@ -11,7 +11,7 @@ cd $wt
 /venv/bin/python $src/demo.py >>$log 2>&1; d0=$?
 git apply $src/patch.diff >>$log 2>&1 || { echo "$id APPLY FAILED"; git -C /repo worktree remove --force $wt; exit 1; }
 /venv/bin/python $src/demo.py >>$log 2>&1; d1=$?
-/venv/bin/python -m pytest -q -p no:cacheprovider -n 6 --timeout=900 xrspatial/tests 2>&1 | tail -4 >>$log
+/venv/bin/python -m pytest -q -p no:cacheprovider -n 3 --timeout=900 xrspatial/tests 2>&1 | tail -4 >>$log
 tests=$(grep -E "passed|failed" $log | tail -1)
 cd /
 git -C /repo worktree remove --force $wt
@@ -24,7 +24,7 @@ if [ $ok = yes ]; then
   python3 - <<PY
 import json
 m=json.load(open('$src/meta.json'))
-m['confirmed']={'demo_on_clean_tree_rc':$d0,'demo_with_patch_rc':$d1,'test_suite_with_patch':"""$tests""",'how':'scratch worktree of /repo HEAD; /venv/bin/python demo.py before and after git apply; pytest -n 6 xrspatial/tests'}
+m['confirmed']={'demo_on_clean_tree_rc':$d0,'demo_with_patch_rc':$d1,'test_suite_with_patch':"""$tests""",'how':'scratch worktree of /repo HEAD; /venv/bin/python demo.py before and after git apply; pytest -n 3 xrspatial/tests'}
 json.dump(m,open('/verif/seeded/$id/meta.json','w'),indent=1)
 PY
 fi
